@@ -5,8 +5,11 @@ package deflate
 
 import (
 	"compress/flate"
+	"errors"
 	"io"
 )
+
+var errWriterClosed = errors.New("flate: closed writer")
 
 type Writer struct {
 	err error
@@ -114,6 +117,9 @@ func (w *Writer) Flush() (err error) {
 }
 
 func (w *Writer) Close() (err error) {
+	if w.err == errWriterClosed {
+		return nil
+	}
 	if w.err != nil {
 		return w.err
 	}
@@ -123,6 +129,8 @@ func (w *Writer) Close() (err error) {
 	err = w.lc.Close()
 	if err != nil {
 		w.err = err
+		return err
 	}
-	return err
+	w.err = errWriterClosed
+	return nil
 }
